@@ -468,3 +468,14 @@ Fixpoint run_stream (s : brk_state) (owns : list (result unit)) : list bool * br
   | own :: r =>
       let (l, s') := run_stream (snd (conn_query s own false)) r in (brk_may_reject s :: l, s')
   end.
+
+(* ---- a result set that FAILS while it is read ----
+   unmarshalRow, orm.go:28-34: when scanner.Next() is false, scanner.Err() is consulted first: a failing
+   result set (the driver's Next returned an error) yields THAT error; only a clean end of an empty result
+   is ErrNotFound. The destination is not touched. *)
+Definition ERowDriver : nat := 6.         (* the error the SQL driver reported for the result set *)
+Definition unmarshal_row_no_next (next_err : option nat) (d : dst) : dst * result unit :=
+  match next_err with
+  | Some e => (d, Err e)
+  | None => (d, Err ENotFound)
+  end.
